@@ -30,6 +30,8 @@ Monitor clauses (computed from the implementation's dumps / operation history on
 import LndModel.Prelude.Lines
 import LndModel.C01.Model
 import LndModel.C02.Model
+import LndModel.C02.Total
+import LndModel.C02.Lemmas
 
 open LndModel LndModel.Lines LndModel.C01 LndModel.C02
 
@@ -286,6 +288,7 @@ structure St where
   rulAtProbe : Nat := 0
   maxHeight : Nat := 0
   staleWrites : Nat := 0
+  hypChecks : Nat := 0
   borkedOps : Nat := 0
   errKinds : List (String × Nat) := []
   samples : Nat := 0
@@ -659,6 +662,10 @@ def liveChecks (s : St) (node : String) : IO St := do
 
 def intOf (s : String) : Int := s.toInt?.getD (-99)
 
+/-- the real database content as a model `Disk`. -/
+def diskOfK (k : KDump) : Disk :=
+  { lc := k.lc, rc := k.rc, pend := k.pc.map (fun c => (c, k.diff)), ua := some k.uaL, rul := some k.rulL, lwr := k.lwr }
+
 def probeChecks (s : St) (node : String) : IO St := do
   let mut s := { s with probes := s.probes + 1 }
   let k := s.kdump node
@@ -678,6 +685,15 @@ def probeChecks (s : St) (node : String) : IO St := do
       | .ok n =>
         if let some d := nodeDiff n post then
           s ← mismatch s s!"node={node} restored state: {d.take 600}"
+  -- hypotheses of restore_total_partial / continue_after_restore_partial on the REAL states
+  if !s.borked then
+    s := { s with hypChecks := s.hypChecks + 2 }
+    if !diskWF (diskOfK k) then
+      s ← mismatch s s!"node={node} hypothesis diskWF of restore_total_partial does not hold on the real database content"
+      s := { s with modelOk := true }
+    if !invCheck (nodeOfDump (s.cfgOf node) post) then
+      s ← mismatch s s!"node={node} hypothesis invCheck of continue_after_restore_partial does not hold on the real restored state"
+      s := { s with modelOk := true }
   -- (S) signed projection
   s ← projectionMonitor s node pre post
   if k.pc.isSome then s := { s with pendAtProbe := s.pendAtProbe + 1 }
@@ -1127,6 +1143,7 @@ def main : IO Unit := do
   IO.println s!"STAT revocations_checked={s.revsChecked}"
   IO.println s!"STAT stale_handle_writes_checked={s.staleWrites}"
   IO.println s!"STAT failed_write_operations={s.borkedOps}"
+  IO.println s!"STAT theorem_hypotheses_evaluated_on_real_states={s.hypChecks}"
   IO.println s!"STAT log_entries_kept_by_projection={s.keptEntries}"
   IO.println s!"STAT log_entries_dropped_by_projection={s.droppedEntries}"
   IO.println s!"STAT max_commit_height={s.maxHeight}"
